@@ -58,7 +58,9 @@ LUBA_HOST_CODES = [0x2A, 0x2C, 0x2D, 0x20, 0x32, 0x34, 0x35, 0x36, 0x37]
 LUBA_UNKNOWN_CODES = [c for c in range(256) if c not in RW.LUBA_CMDS]
 # forward frames that decode to a known command whatever device type is remembered
 POOL16 = [[0xFF, 0x00], [0x01, 0x05], [0xFE, 0x80], [0x02, 0xFE], [0x81, 0x10], [0xFF, 0x90], [0x03, 0xA0],
-          [0xA3, 0x55], [0xC1, 0x06], [0xC1, 0x08], [0xFF, 0x20], [0xA5, 0x00], [0xFF, 0x2B]]
+          [0xA3, 0x55], [0xFF, 0x20], [0xA5, 0x00], [0xFF, 0x2B]]
+# ENABLE DEVICE TYPE n followed at once by an application extended command of that type
+DT_PAIRS = [([0xC1, 0x06], [0x01, 0xE0]), ([0xC1, 0x08], [0xFF, 0xE2]), ([0xC1, 0x01], [0x05, 0xE0])]
 POOL24 = [[0xFF, 0xFE, 0x00], [0xC1, 0x30, 0x01], [0x01, 0xFE, 0x30], [0xFF, 0xFE, 0x10], [0xC1, 0x01, 0x00],
           [0x03, 0xFE, 0x1D]]
 UNKNOWN16 = [0xCB, 0x00]
@@ -238,8 +240,8 @@ def run_case(case):
         for kind, i, ln in ref["trace"]:
             if kind == "bad-length" and 21 <= ln <= 23:
                 pre, _ = _judge(proto, stream[:i], [])
-                if not pre:
-                    return [("C19:luba-length-overrun",
+                if not [v for v in pre if v[0] not in CONFIRMED]:
+                    return pre + [("C19:luba-length-overrun",
                              "length byte %d at offset %d (frame start %d): the receiver accepts it (guard is "
                              "'0 < length < 24') although 3+length+1 bytes do not fit its 24-entry buffer; it then "
                              "raises IndexError at offset %d and on every later byte, or swallows the following "
@@ -305,6 +307,8 @@ def _luba_valid():
         st.tuples(BYTE, st.integers(0, 65535)).map(lambda t: ("backward", RW.luba_event_received([t[0]], tick=t[1]))),
         st.sampled_from(POOL16).map(lambda f: ("observed16", RW.luba_event_received(f))),
         st.sampled_from(POOL24).map(lambda f: ("observed24", RW.luba_event_received(f))),
+        st.sampled_from(DT_PAIRS).map(lambda p: ("observed-dt-pair", RW.luba_event_received(p[0]) +
+                                                 RW.luba_event_received(p[1]))),
         st.tuples(st.sampled_from([62, 63]), _data(0, 3)).map(lambda t: ("bus-error", ev(0x80 | t[0], t[1]))),
         st.tuples(st.sampled_from([0] + list(range(33, 62))), _data(0, 4)).map(
             lambda t: ("unknown-info", ev(0x80 | t[0], t[1]))),
@@ -373,6 +377,7 @@ def _sci_valid():
         st.tuples(idn, BYTE, _data(2, 2)).map(lambda t: ("backward-junk", f((t[0] << 4) | 2, t[2][0], t[2][1], t[1]))),
         st.tuples(idn, st.sampled_from(POOL16)).map(lambda t: ("observed16", f((t[0] << 4) | 3, 0, t[1][0], t[1][1]))),
         st.tuples(idn, st.sampled_from(POOL24)).map(lambda t: ("observed24", f((t[0] << 4) | 8, *t[1]))),
+        st.sampled_from(DT_PAIRS).map(lambda p: ("observed-dt-pair", f(0x03, 0, *p[0]) + f(0x03, 0, *p[1]))),
         st.tuples(idn, st.sampled_from([4, 5, 6]), _data(3, 3)).map(
             lambda t: ("unsupported-kind", f((t[0] << 4) | t[1], *t[2]))),
         st.tuples(idn, st.integers(1, 5), _data(2, 2)).map(lambda t: ("error", f((t[0] << 4) | 7, t[2][0], t[2][1], t[1]))),
@@ -433,7 +438,8 @@ def stream_strategy(proto, with_malformed):
     if with_malformed and proto == "luba":
         # about one stream in 16 contains deliberately malformed-for-type frames (they are set aside)
         dirty = streams(st.one_of(seg, seg, seg, _luba_malformed()))
-        return st.integers(0, 15).flatmap(lambda k: dirty if k == 0 else streams(seg))
+        clean = streams(seg)
+        return st.one_of([clean] * 15 + [dirty])
     return streams(seg)
 
 
@@ -535,7 +541,7 @@ def _sweep_shard(arg):
 
 def run(ctx):
     ctx.pmap(_sweep_shard, [(k, 16) for k in range(16)])
-    n_luba, n_sci = (2500, 900) if ctx.quick else (60000, 15000)
+    n_luba, n_sci = (2000, 800) if ctx.quick else (50000, 15000)
     shards = [("luba", ctx.seed * 1000 + k, n_luba) for k in range(12)] + \
              [("sci", ctx.seed * 1000 + 500 + k, n_sci) for k in range(4)]
     ctx.pmap(_hyp_shard, shards)
